@@ -132,6 +132,14 @@ def create_from_info(info):
     model.name = info.get("name", None)
     if "mapping" in info and info["mapping"] is not None:
         model.set_mapping(info["mapping"])
+        # the mapping of the original model can contain variables that have
+        # cancelled out of its terms; keep the rest of the bookkeeping
+        # consistent with the mapping that we just set.
+        for v in info["mapping"]:
+            if v not in model._variables:
+                model._variables.add(v)
+                model._num_binary_variables += 1
+        model._next_label = max(info["mapping"].values(), default=-1) + 1
     if "num_ancillas" in info and info["num_ancillas"]:
         model._ancilla = info["num_ancillas"]
 
